@@ -5,6 +5,7 @@ package rawpeer
 
 import (
 	"fmt"
+	"github.com/brewlin/net-protocol/stack"
 	"sync"
 	"time"
 
@@ -17,13 +18,13 @@ import (
 )
 
 type Seg struct {
-	T     time.Duration
+	T time.Duration
 	rfc.TCP
-	Opts  []rfc.TCPOpt
+	Opts   []rfc.TCPOpt
 	OptErr error
-	IPLen int  // total network-layer packet length
-	IPID  uint16
-	Err   error // decode/checksum error of the frame
+	IPLen  int // total network-layer packet length
+	IPID   uint16
+	Err    error // decode/checksum error of the frame
 }
 
 func (s Seg) Has(f uint8) bool { return s.Flags&f == f }
@@ -52,16 +53,16 @@ func (s Seg) String() string {
 }
 
 type Peer struct {
-	H     *wire.Host
-	V6    bool
+	H             *wire.Host
+	V6            bool
 	Stack4, Peer4 [4]byte
 	Stack6, Peer6 [16]byte
-	mu    sync.Mutex
-	rx    []Seg
-	other []*wire.Frame // non-TCP frames
-	ipid  uint16
-	t0    time.Time
-	OnFrame func(f *wire.Frame) // extra tap (e.g. the C06 frame checker)
+	mu            sync.Mutex
+	rx            []Seg
+	other         []*wire.Frame // non-TCP frames
+	ipid          uint16
+	t0            time.Time
+	OnFrame       func(f *wire.Frame) // extra tap (e.g. the C06 frame checker)
 }
 
 func New(h *wire.Host, v6 bool) *Peer {
@@ -197,6 +198,16 @@ func (p *Peer) SendNoSettle(t rfc.TCP) {
 }
 
 // NewHost builds the stack under test for scripted-peer checks.
+// DebugProbe, when set, is attached as TCP probe to every host made by NewHost.
+var DebugProbe func(stack.TCPEndpointState)
+
 func NewHost(mtu uint32, sack bool, cc string) (*wire.Host, error) {
+	if DebugProbe != nil {
+		h, err := wire.NewHost(wire.HostCfg{Name: "S", MTU: mtu, V4: []tcpip.Address{wire.AddrA4}, V6: []tcpip.Address{wire.AddrA6}, SACK: sack, CC: cc})
+		if err == nil {
+			h.S.AddTCPProbe(DebugProbe)
+		}
+		return h, err
+	}
 	return wire.NewHost(wire.HostCfg{Name: "S", MTU: mtu, V4: []tcpip.Address{wire.AddrA4}, V6: []tcpip.Address{wire.AddrA6}, SACK: sack, CC: cc})
 }
